@@ -247,3 +247,180 @@ Proof.
   destruct (model_obs i (default_choices i)) as [o|] eqn:M; [|congruence].
   eapply prop_of_model; eassumption.
 Qed.
+
+(* ------------------------------------------------------------------------------------------------
+   topologies 1 and 2 (the in-cluster selection always fails): prop_body_x holds of every observation model_obs_x allows *)
+Lemma loop_pure_j j fuel c r : forall rt os k a,
+  nth_error (retry_loop fuel c r rt (map (EvAttempt j) os)) k = Some a -> nth_error os k = Some (snd a).
+Proof.
+  induction fuel as [|f IH]; intros rt os k a H; cbn [retry_loop] in H; [destruct k; discriminate|].
+  destruct (retry_max c + cross_retry c <? rt); [destruct k; discriminate|].
+  destruct os as [|o os]; cbn [map] in H; [destruct k; discriminate|].
+  destruct k as [|k].
+  - cbn [nth_error] in H. inversion H; subst. reflexivity.
+  - cbn [nth_error] in H |- *. destruct (allow_retry c r o); [|destruct k; discriminate]. eapply IH; exact H.
+Qed.
+
+Lemma loop_pure_length_j j fuel c r : forall rt os,
+  (length (retry_loop fuel c r rt (map (EvAttempt j) os)) <= length os)%nat.
+Proof.
+  induction fuel as [|f IH]; intros rt os; cbn [retry_loop]; [cbn; lia|].
+  destruct (retry_max c + cross_retry c <? rt); [cbn; lia|].
+  destruct os as [|o os]; cbn [map]; [cbn; lia|].
+  destruct (allow_retry c r o); cbn [length]; [specialize (IH ((if j then raise c rt else rt) + 1) os); lia|lia].
+Qed.
+
+(* after a failed in-cluster selection every attempt runs with RetryTime >= RetryMax *)
+Lemma loop_jump_lower fuel c r : forall rt os,
+  Forall (fun a => retry_max c <= fst a) (retry_loop fuel c r rt (map (EvAttempt true) os)).
+Proof.
+  induction fuel as [|f IH]; intros rt os; cbn [retry_loop]; [constructor|].
+  destruct (retry_max c + cross_retry c <? rt); [constructor|].
+  destruct os as [|o os]; cbn [map]; [constructor|].
+  assert (R : retry_max c <= raise c rt).
+  { unfold raise. destruct (rt <=? retry_max c) eqn:E; [lia|apply Z.leb_gt in E; lia]. }
+  destruct (allow_retry c r o); constructor; try (cbn; exact R); [apply IH|constructor].
+Qed.
+
+Lemma loop_cross_only fuel c r : forall rt k, retry_loop fuel c r rt (repeat EvCrossBalance k) = [].
+Proof.
+  induction fuel as [|f IH]; intros rt k; cbn [retry_loop]; [reflexivity|].
+  destruct (retry_max c + cross_retry c <? rt); [reflexivity|].
+  destruct k as [|k]; cbn [repeat]; [reflexivity|apply IH].
+Qed.
+
+Lemma outs_of_x_length choices : forall steps, length (outs_of_x choices steps) = length choices.
+Proof. induction choices as [|b ch IH]; intro steps; cbn [outs_of_x]; [reflexivity|]. destruct (is_dead_x b); cbn [length]; rewrite IH; reflexivity. Qed.
+
+Lemma outs_of_x_nth choices : forall steps k b,
+  nth_error choices k = Some b ->
+  exists o, nth_error (outs_of_x choices steps) k = Some o /\ (fst o = ConnectErr <-> is_dead_x b = true)
+            /\ (snd o = 200 \/ snd o = 500).
+Proof.
+  induction choices as [|b0 ch IH]; intros steps k b H; [destruct k; discriminate|].
+  cbn [outs_of_x]. destruct k as [|k].
+  - cbn [nth_error] in H. inversion H; subst b0. destruct (is_dead_x b) eqn:D.
+    + eexists. split; [reflexivity|]. cbn. split; [tauto|right; reflexivity].
+    + eexists. split; [reflexivity|]. apply step_outcome_spec.
+  - cbn [nth_error] in H. destruct (is_dead_x b0); cbn [nth_error]; eapply IH; exact H.
+Qed.
+
+Lemma outs_of_x_status choices : forall steps o, In o (outs_of_x choices steps) -> snd o = 200 \/ snd o = 500.
+Proof.
+  intros steps o H. apply In_nth_error in H. destruct H as [k H].
+  assert (Hk : (k < length choices)%nat).
+  { rewrite <- (outs_of_x_length choices steps). apply nth_error_Some. congruence. }
+  destruct (nth_error choices k) as [b|] eqn:E; [|apply nth_error_None in E; lia].
+  destruct (outs_of_x_nth choices steps k b E) as [o' [H1 [_ H3]]]. congruence.
+Qed.
+
+Lemma resend_safe_x_intro safe ch :
+  (forall k a b, nth_error ch k = Some a -> nth_error ch (S k) = Some b -> is_dead_x a || safe = true) ->
+  resend_safe_x safe ch = true.
+Proof.
+  induction ch as [|a ch IH]; intro H; [reflexivity|].
+  destruct ch as [|b ch]; [reflexivity|].
+  change (resend_safe_x safe (a :: b :: ch)) with ((is_dead_x a || safe) && resend_safe_x safe (b :: ch)).
+  rewrite (H 0%nat a b eq_refl eq_refl). cbn [andb]. apply IH.
+  intros k x y Hx Hy. apply (H (S k) x y); assumption.
+Qed.
+
+Definition events_x_f (i : c08_input) (outs : list (outcome * Z)) : list event := events_x i outs.
+
+Definition model_obs_x_f (fuel : nat) (i : c08_input) (choices : list Z) : option val :=
+  let outs := outs_of_x choices (i_steps i) in
+  let atts := retry_loop fuel (i_cfg i) (i_req i) 0 (events_x i outs) in
+  let n := length atts in
+  let ch := firstn n choices in
+  if forallb (fun b => (b =? 5) || (b =? 6)) ch && (length ch =? n)%nat
+  then
+    let status := match last (firstn n outs) (Other, 500) with (Ok, s) => s | _ => 500 end in
+    Some (VL [vLZ ch; vLZ (filter (fun b => negb (is_dead_x b)) ch); VZ status])
+  else None.
+
+Lemma model_obs_x_eq i choices : model_obs_x i choices = model_obs_x_f 20 i choices.
+Proof. unfold model_obs_x, model_obs_x_f, attempts. reflexivity. Qed.
+
+Lemma prop_of_model_x_f fuel i choices o :
+  (fuel <= 20)%nat ->
+  0 <= retry_max (i_cfg i) -> 0 <= cross_retry (i_cfg i) ->
+  model_obs_x_f fuel i choices = Some o -> prop_body_x i o = true.
+Proof.
+  intros Hfuel Hrm Hcr H. unfold model_obs_x_f in H.
+  set (outs := outs_of_x choices (i_steps i)) in *.
+  set (c := i_cfg i) in *. set (r := i_req i) in *.
+  set (atts := retry_loop fuel c r 0 (events_x i outs)) in *.
+  set (n := length atts) in *. set (ch := firstn n choices) in *.
+  destruct (forallb (fun b => (b =? 5) || (b =? 6)) ch && (length ch =? n)%nat) eqn:V; [|discriminate].
+  apply andb_true_iff in V. destruct V as [V1 V2]. apply Nat.eqb_eq in V2.
+  inversion H; subst o; clear H.
+  (* the three shapes of the event stream *)
+  assert (Shape : (atts = [] /\ ((i_topo i =? 2) || (cross_retry c <=? 0)) = true)
+                  \/ (((i_topo i =? 2) || (cross_retry c <=? 0)) = false
+                      /\ atts = retry_loop fuel c r 0 (map (EvAttempt true) (map fst outs)))).
+  { unfold atts, events_x. fold c. destruct (i_topo i =? 2) eqn:T2.
+    - left. split; [apply loop_cross_only|reflexivity].
+    - destruct (cross_retry c <=? 0) eqn:C0.
+      + left. split; [|reflexivity]. destruct fuel; [reflexivity|]. cbn [retry_loop].
+        destruct (retry_max c + cross_retry c <? 0); reflexivity.
+      + right. split; [reflexivity|]. rewrite map_map. reflexivity. }
+  unfold prop_body_x. rewrite !as_LZ_vLZ. fold c. fold r.
+  destruct Shape as [[Ha Hg]|[Hg Ha]].
+  - (* no attempt at all *)
+    assert (Hn : n = 0%nat) by (unfold n; rewrite Ha; reflexivity).
+    assert (Hch : ch = []) by (unfold ch; rewrite Hn; reflexivity).
+    rewrite Hch, Hg. cbn [length filter resend_safe_x forallb list_Z_eqb Z.of_nat].
+    rewrite Hn. cbn [firstn last].
+    assert (B : (0 <=? Z.min 20 (1 + retry_max c + cross_retry c)) = true) by (apply Z.leb_le; lia).
+    rewrite B. cbn. rewrite orb_true_r. reflexivity.
+  - set (os := map fst outs) in *.
+    assert (Hatt : forall k a, nth_error atts k = Some a -> nth_error os k = Some (snd a)).
+    { intros k a Hk. rewrite Ha in Hk. eapply loop_pure_j; exact Hk. }
+    assert (Hchn : forall k b, nth_error ch k = Some b -> nth_error choices k = Some b /\ exists a, nth_error atts k = Some a).
+    { intros k b Hb. assert (Hk : (k < n)%nat) by (rewrite <- V2; apply nth_error_Some; congruence).
+      unfold ch in Hb. rewrite nth_error_firstn_lt in Hb by exact Hk. split; [exact Hb|].
+      destruct (nth_error atts k) as [a|] eqn:E; [eauto|]. apply nth_error_None in E. unfold n in Hk. lia. }
+    assert (Hlink : forall k b a, nth_error ch k = Some b -> nth_error atts k = Some a ->
+                                  (snd a = ConnectErr <-> is_dead_x b = true)).
+    { intros k b a Hb Hk. destruct (Hchn k b Hb) as [Hc _]. pose proof (Hatt k a Hk) as Ho.
+      destruct (outs_of_x_nth choices (i_steps i) k b Hc) as [o [No [Hd _]]]. fold outs in No.
+      unfold os in Ho. rewrite nth_error_map, No in Ho. cbn in Ho. injection Ho as Heq. rewrite <- Heq. exact Hd. }
+    rewrite Hg.
+    repeat (apply andb_true_iff; split).
+    + apply Z.leb_le. rewrite V2. unfold n. rewrite Ha.
+      pose proof (bounded_fuel fuel c r (map (EvAttempt true) os) Hrm Hcr) as B. lia.
+    + (* at most CrossRetry + 1 attempts *)
+      apply Z.leb_le. rewrite V2. unfold n. rewrite Ha.
+      destruct (loop_times fuel c r 0 (map (EvAttempt true) os) Hcr) as [F S].
+      pose proof (loop_jump_lower fuel c r 0 os) as L.
+      assert (F' : Forall (fun a => retry_max c <= fst a <= retry_max c + cross_retry c)
+                          (retry_loop fuel c r 0 (map (EvAttempt true) os))).
+      { rewrite Forall_forall in *. intros a Hin. specialize (F a Hin). specialize (L a Hin). lia. }
+      pose proof (sorted_bounded_length _ (retry_max c) (retry_max c + cross_retry c) F' S). lia.
+    + apply resend_safe_x_intro. intros k a b Hka Hkb.
+      destruct (Hchn k a Hka) as [_ [x Hx]]. destruct (Hchn (S k) b Hkb) as [_ [y Hy]].
+      pose proof Hx as Hx'. pose proof Hy as Hy'. rewrite Ha in Hx', Hy'.
+      destruct (resend_fuel fuel c r 0 _ k x y Hx' Hy') as [Hce|[Hgt [Hbl Hl]]].
+      * apply (Hlink k a x Hka Hx) in Hce. rewrite Hce. reflexivity.
+      * rewrite Hgt, Hbl, Hl. cbn. apply orb_true_r.
+    + destruct ((retry_level c =? 1) && is_get r && bodyless r) eqn:S; [reflexivity|]. cbn [orb].
+      apply Z.leb_le.
+      assert (NR : (length (filter past_connect atts) <= 1)%nat).
+      { rewrite Ha. apply loop_no_replay. unfold check_allow_retry, RetryGet. exact S. }
+      rewrite (filter_length_pointwise (fun b => negb (is_dead_x b)) past_connect ch atts); [lia|exact V2|].
+      intros k a x Hka Hx. pose proof (Hlink k a x Hka Hx) as L. unfold past_connect.
+      destruct (is_dead_x a); destruct (snd x); cbn; try reflexivity;
+        try (destruct L as [L1 L2]; (discriminate (L2 eq_refl) || discriminate (L1 eq_refl))).
+    + apply list_Z_eqb_refl.
+    + exact V1.
+    + apply Z.leb_le.
+      destruct (last_cases (firstn n outs) (Other, 500)) as [L|L].
+      * rewrite L. lia.
+      * apply In_firstn in L. apply outs_of_x_status in L.
+        destruct (last (firstn n outs) (Other, 500)) as [o s]. cbn in L. destruct o; lia.
+Qed.
+
+Theorem prop_of_model_x i choices o :
+  0 <= retry_max (i_cfg i) -> 0 <= cross_retry (i_cfg i) ->
+  model_obs_x i choices = Some o -> prop_body_x i o = true.
+Proof. intros Hm Hc H. rewrite model_obs_x_eq in H. apply (prop_of_model_x_f 20 i choices o); auto. Qed.
